@@ -48,3 +48,27 @@ fn c16_write() {
         kani::cover!(r > 0 && (r as usize) < len, "C16.cover_partial_write");
     }
 }
+
+/// thorough tier: the same obligations with a kernel script of up to six answers
+#[kani::proof]
+#[kani::unwind(8)]
+#[kani::stub(crate::syscall::is_socket, is_socket_stub)]
+#[kani::stub(crate::syscall::unix::set_non_blocking_flag, set_flag_stub)]
+#[kani::stub(crate::syscall::is_non_blocking, is_non_blocking_stub)]
+#[kani::stub(crate::common::now, now_stub)]
+#[kani::stub(crate::syscall::send_time_limit, limit_stub)]
+#[kani::stub(crate::net::EventLoops::wait_write_event, wait_stub)]
+fn c16_write_long() {
+    let nb = begin(6);
+    let len: usize = kani::any();
+    kani::assume(len <= MAXLEN);
+    unsafe { LEN = len; let mut p = 0; while p < MAXLEN { BUF[p] = sb(p); p += 1; } }
+    let nio: NioWriteSyscall<Kernel> = NioWriteSyscall::default();
+    let r = nio.write(None, 3, unsafe { BUF.as_ptr() }.cast(), len);
+    check_common(r, nb, len);
+    unsafe {
+        kani::cover!(r == 3 && CALLS >= 3, "C16.cover_full_write_after_retries");
+        kani::cover!(r == -1 && WAITS > 0, "C16.cover_failure_after_waiting");
+        kani::cover!(r > 0 && (r as usize) < len, "C16.cover_partial_write");
+    }
+}
